@@ -9,9 +9,9 @@ def nontrivial(r):
 _whole.install(globals(), "C07",
                text="Machine invariant WFT for every accepted event stream: a root with no parent on level 0, every other deme has exactly one parent created before it on the level above "
                     "and started no earlier, levels below the configured height only, 0 <= started_at <= metaepoch counter, structure never rewritten; demes created by a round are children "
-                    "of the deme their seed came from. Tie: machine replay comparing level/parent/started_at/flags of every deme at every boundary; the monitor checks ids, engine classes, "
+                    "of the deme their seed came from; ids (parent's id + number of demes already on the level) are unique. Tie: machine replay comparing level/parent/started_at/flags of every deme at every boundary; the monitor checks ids, engine classes, "
                     "child lists and that every seed is an individual of the parent's population at the moment of sprouting (and in the child's initial population).",
-               note="The seed clauses and the id strings are decided by the monitor on real rounds (the machine carries candidate fitness keys, not genomes).",
+               note="The seed clauses are decided on real rounds by the monitor and by the history machine's strict HBegin events (seed = an individual of the parent's current generation); the machine replay compares the last component of every id string.",
                technique="Coq invariant (well-formed forest) over all event streams + vm_compute trace replay against the real package",
                quick=240, thorough=6000, nontrivial=nontrivial, extra_checks=[_whole.make_sessions("C07", {"height": 2, "sprout": {"kind": "nbc", "gen_dist": 1.0, "trunc": 1.0, "fil_dist": 0.0, "level_limit": 4}, "gsc": {"kind": "MetaepochLimit", "n": 2}})],
                forces=[(2, None), (2, {"height": 3}), (1, {"height": 3, "objective_kind": "plateau", "engines": ["SEA", "SEA", "DE"]}),
